@@ -16,11 +16,12 @@ Lemma configure_table batches : forall s0 rt d,
   exists pre batch post st eo o b,
     batches = pre ++ batch :: post /\ In st batch /\
     directive (cs_rs (fold_left commit pre s0)) st = Some (AView o b) /\ rt = rtag (o_tag o) eo /\
-    d_perm d = secured_permission (cs_rs (commit (fold_left commit pre s0) batch)) eo (o_perm o) /\ d_body d = b.
+    d_perm d = secured_permission (cs_rs (commit (fold_left commit pre s0) batch)) eo (o_perm o) /\ d_body d = b /\
+    var_ok eo o.
 Proof.
   induction batches as [|b r IH]; intros s0 rt d H; simpl in H; [left; exact H|].
-  destruct (IH _ _ _ H) as [H1|(pre & batch & post & st & eo & o & bd & E & H2 & H3 & H4 & H5 & H6)].
-  - destruct (commit_table _ _ _ _ H1) as [H0|(st & eo & o & bd & H2 & H3 & H4 & H5 & H6)]; [left; exact H0|right].
+  destruct (IH _ _ _ H) as [H1|(pre & batch & post & st & eo & o & bd & E & H2 & H3 & H4 & H5 & H6 & H7)].
+  - destruct (commit_table _ _ _ _ H1) as [H0|(st & eo & o & bd & H2 & H3 & H4 & H5 & H6 & H7)]; [left; exact H0|right].
     exists [], b, r, st, eo, o, bd. simpl. repeat split; assumption.
   - right. exists (b :: pre), batch, post, st, eo, o, bd. simpl. rewrite E. repeat split; assumption.
 Qed.
@@ -82,3 +83,129 @@ Proof.
   pose proof (commit_rs_stable s b Hb) as E.
   rewrite IH; [exact E|]. rewrite E. exact Hr.
 Qed.
+
+(* ================================================================== *)
+(* secure=False / __call_permissive__ : modelled, and never used by the router *)
+
+Section Permissive.
+  Variable R : registry.
+  Variable D : list (N * dview).
+  Variable tb : grants.
+  Variable q : rq5.
+
+  Lemma call_loop_s_secure lookup l c : forall pme,
+    call_loop_s D tb q true lookup l c pme = call_loop5 D tb q lookup l c pme.
+  Proof.
+    induction l as [|cmp r IH]; intros pme; simpl; [reflexivity|].
+    unfold call_component_s. destruct (call_component5 D tb q lookup cmp c) as [tr o].
+    destruct o as [t|e| |]; try reflexivity. destruct e; try reflexivity. rewrite IH. reflexivity.
+  Qed.
+
+  (* the function the router is built from IS the secure instance of the general _call_view; the permissive branches
+     (call_reg_permissive, mv_call_permissive) are unreachable from router_call *)
+  Lemma router_uses_secure fuel cls req_sro name c :
+    call_view5 R D tb q fuel cls req_sro name c = call_view_s R D tb q true fuel cls req_sro name c.
+  Proof. destruct fuel; simpl; [reflexivity|]. rewrite call_loop_s_secure. reflexivity. Qed.
+
+  Lemma below_secured_wrappers d p : d_perm d = Some p -> below_secured (wrappers d) = Some (csrf_part d ++ ow_part d ++ deco_part d).
+  Proof.
+    intros Hp. rewrite wrappers_shape. unfold pred_part, sec_part. rewrite Hp.
+    destruct (r_preds (d_reg d)); reflexivity.
+  Qed.
+
+  Lemma below_secured_none d : d_perm d = None -> below_secured (wrappers d) = None.
+  Proof.
+    intros Hp. rewrite wrappers_shape. unfold pred_part, sec_part, ow_part, deco_part, csrf_part. rewrite Hp.
+    destruct (r_preds (d_reg d)), (d_wrapper d), (d_deco d), (d_csrf d); reflexivity.
+  Qed.
+
+  (* what secure=False skips is exactly the predicates and the check: when the predicates hold and the policy grants,
+     the secure call is the permissive call preceded by Permits p c true *)
+  Lemma secure_vs_permissive lookup v c d p :
+    assocN (r_tag v) D = Some d -> d_perm d = Some p ->
+    qualifies (q_base q) (d_reg d) = true -> granted tb p c = true ->
+    call_reg D tb q lookup v c =
+    (Permits p c true :: fst (call_reg_permissive D tb q lookup v c), snd (call_reg_permissive D tb q lookup v c)).
+  Proof.
+    intros Hd Hp Hq Hg. unfold call_reg, call_reg_permissive. rewrite Hd, (below_secured_wrappers d p Hp).
+    rewrite wrappers_shape. unfold pred_part, sec_part. rewrite Hp.
+    destruct (r_preds (d_reg d)); cbn [app run_ws]; rewrite ?Hq, Hg;
+      destruct (run_ws tb q lookup (csrf_part d ++ ow_part d ++ deco_part d) d (r_tag v) c); reflexivity.
+  Qed.
+
+  (* an unsecured view has no __call_permissive__: the permissive call is the ordinary call *)
+  Lemma permissive_unsecured lookup v c d :
+    assocN (r_tag v) D = Some d -> d_perm d = None ->
+    call_reg_permissive D tb q lookup v c = call_reg D tb q lookup v c.
+  Proof. intros Hd Hp. unfold call_reg, call_reg_permissive. rewrite Hd, (below_secured_none d Hp). reflexivity. Qed.
+
+  (* __permitted__ answers exactly what the check inside the secured view would answer *)
+  Lemma permitted_is_the_check v c d p :
+    assocN (r_tag v) D = Some d -> d_perm d = Some p ->
+    permitted_reg D tb v c = ([Permits p c (granted tb p c)], granted tb p c).
+  Proof. intros Hd Hp. unfold permitted_reg. rewrite Hd, Hp. reflexivity. Qed.
+End Permissive.
+
+(* ---- the repaired _call_view: with secure=False a single secured view still honours its predicates *)
+Section PermissivePredicates.
+  Variable D : list (N * dview).
+  Variable tb : grants.
+  Variable q : rq5.
+
+  Lemma permissive_checks_predicates_ok : permissive_checks_predicates = true.
+  Proof. reflexivity. Qed.
+
+  Lemma permissive_honours_predicates lookup v c d p :
+    assocN (r_tag v) D = Some d -> d_perm d = Some p -> qualifies (q_base q) (d_reg d) = false ->
+    call_component_s D tb q false lookup (CView v) c = ([], Raise EPredMismatch).
+  Proof.
+    intros Hd Hp Hq. unfold call_component_s. rewrite Hd, Hp, Hq, permissive_checks_predicates_ok. reflexivity.
+  Qed.
+
+  (* at component level, for a secured single view: predicates fail => both calls are a PredicateMismatch;
+     predicates hold and the policy grants => the secure call is the permissive call preceded by the check *)
+  Lemma secure_vs_permissive_component lookup v c d p :
+    assocN (r_tag v) D = Some d -> d_perm d = Some p -> granted tb p c = true ->
+    let '(trp, op) := call_component_s D tb q false lookup (CView v) c in
+    call_component5 D tb q lookup (CView v) c =
+    if qualifies (q_base q) (d_reg d) then (Permits p c true :: trp, op) else (trp, op).
+  Proof.
+    intros Hd Hp Hg. destruct (qualifies (q_base q) (d_reg d)) eqn:Hq.
+    - unfold call_component_s. rewrite Hd, Hp, Hq, andb_false_r.
+      cbn [call_component5]. rewrite (secure_vs_permissive D tb q lookup v c d p Hd Hp Hq Hg).
+      destruct (call_reg_permissive D tb q lookup v c). reflexivity.
+    - rewrite (permissive_honours_predicates lookup v c d p Hd Hp Hq).
+      cbn [call_component5]. unfold call_reg. rewrite Hd, wrappers_shape. unfold pred_part.
+      unfold qualifies in Hq. destruct (r_preds (d_reg d)) eqn:Ep; [discriminate Hq|].
+      cbn [app run_ws]. unfold qualifies. rewrite Ep, Hq. reflexivity.
+  Qed.
+End PermissivePredicates.
+
+(* ---- csrf_view enabled next to a permission: the order of the two checks comes from the computed deriver order *)
+Section Csrf.
+  Variable D : list (N * dview).
+  Variable tb : grants.
+  Variable q : rq5.
+
+  Lemma csrf_between_secured_and_owrapped :
+    exists pre mid post, deriver_names = pre ++ nm_secured_view :: mid ++ nm_csrf_view :: nm_owrapped_view :: post /\ mid = [].
+  Proof. exists [nm_attr_wrapped_view; nm_predicated_view], [], [nm_http_cached_view; nm_decorated_view; nm_rendered_view; nm_mapped_view].
+         split; [rewrite deriver_names_eq; reflexivity|reflexivity]. Qed.
+
+  (* a view with a permission and require_csrf=True whose predicates hold: a refusal is decided before the token is
+     looked at; a grant followed by a bad token raises BadCSRFToken and nothing of the view runs *)
+  Lemma csrf_after_permission lookup v c d p :
+    assocN (r_tag v) D = Some d -> d_perm d = Some p -> d_csrf d = true ->
+    qualifies (q_base q) (d_reg d) = true ->
+    call_reg D tb q lookup v c =
+    if granted tb p c
+    then if q_csrf_ok q
+         then let '(tr, o) := run_ws tb q lookup (ow_part d ++ deco_part d) d (r_tag v) c in (Permits p c true :: tr, o)
+         else ([Permits p c true], Raise ECsrf)
+    else ([Permits p c false], Raise EForbidden).
+  Proof.
+    intros Hd Hp Hc Hq. unfold call_reg. rewrite Hd, wrappers_shape. unfold pred_part, sec_part, csrf_part.
+    rewrite Hp, Hc. destruct (r_preds (d_reg d)); cbn [app run_ws]; rewrite ?Hq;
+      destruct (granted tb p c); try reflexivity; destruct (q_csrf_ok q); reflexivity.
+  Qed.
+End Csrf.
